@@ -2276,6 +2276,11 @@ class CodeGenerator(StructuredCodeGenerator):
         """
         from dagrt.utils import is_state_variable
 
+        if any(isinstance(emitter, FortranDoEmitter) for emitter in self.emitters):
+            # Inside a loop, the textually last use is executed once per
+            # iteration. The variable gets released at the exit label.
+            return
+
         read_and_written = inst.get_read_variables() | inst.get_written_variables()
 
         for variable in read_and_written:
